@@ -2,6 +2,7 @@ use crate::engine::*;
 
 pub mod c01;
 pub mod c02;
+pub mod c03;
 pub mod c04;
 pub mod c05;
 pub mod c06;
@@ -25,6 +26,7 @@ pub fn dispatch(env: &Env) -> i32 {
     match env.prop.as_str() {
         "C01" => c01::run(env),
         "C02" => c02::run(env),
+        "C03" => c03::run(env),
         "C04" => c04::run(env),
         "C05" => c05::run(env),
         "C06" => c06::run(env),
